@@ -1,0 +1,15 @@
+//go:build verif
+
+package tree
+
+// VerifCommitWindow, when set, is called by Commit after every module has written its changes and the
+// new version has been saved, and before the modules are switched to the new committed tree. The
+// verification harness uses it to run read-only queries at exactly that point of the block lifecycle
+// (on a live node they arrive there from other goroutines).
+var VerifCommitWindow func()
+
+func verifCommitWindow() {
+	if VerifCommitWindow != nil {
+		VerifCommitWindow()
+	}
+}
